@@ -8,3 +8,231 @@ ASSUMPTIONS = ['end-to-end health (16 positions x oracle bytes) is decided compo
 def tasks(tier):
     from specs.flows import flow_task
     return [(f'flow:{n}', flow_task(n, ('C04',))) for n in ('borrow', 'withdraw', 'liquidate')]
+
+
+# ---------------------------------------------------------------- C04.c/d/e/h kernels
+import mirsym.engine as E
+RT = ENUMS['RiskRequirementType']; WT = ENUMS['RequirementType']
+
+
+def t_health_decision(world):
+    eng = world.engine(opaque=[r'get_account_health_components$', r'check_account_risk_tiers$', r'set_healthy$'])
+    f = world.fn(r'::check_account_health$')
+    args = [eng.ex.fresh(ty, 'a%d' % i) for i, (n, ty) in enumerate(f.params)]
+    res = eng.run_fn(f, args)
+    ob = Ob('C04.c', 'check_account_health: Ok => weighted assets >= weighted liabilities (for the requested requirement) and the risk-tier check passed; rejected with non-negative health only because of the tier check or a component error',
+            [f.name], 'loop-free; components opaque'); ob.paths = len(res)
+    for r in returned(res):
+        comp = calls(r, r'get_account_health_components$'); tiers = calls(r, r'check_account_risk_tiers$')
+        if len(comp) != 1: continue
+        okc = z3.simplify(disc_is(r['ret'], 0)); errc = z3.simplify(disc_is(r['ret'], 1))
+        cd = zint(comp[0][3].disc)
+        t2 = comp[0][3].payload[0][0]
+        a_ = ev(eng.get_path(t2, (('f', 0, I80),))); l_ = ev(eng.get_path(t2, (('f', 1, I80),)))
+        if not z3.is_false(okc) and ob.witness(eng, r, [okc]) is not False:
+            ob.prove(eng, r, [okc], z3.And(cd == 0, a_ >= l_), 'Ok => assets >= liabilities')
+            ob.prove(eng, r, [okc], zint(comp[0][2][1].disc) == zint(args[1].disc), 'components computed for the requested requirement type')
+            if tiers: ob.prove(eng, r, [okc], zint(tiers[0][3].disc) == 0, 'Ok => risk-tier check passed')
+            else: ob.fail('accepting path without the risk-tier check')
+        if not z3.is_false(errc):
+            td = zint(tiers[0][3].disc) if tiers else z3.IntVal(0)
+            ob.prove(eng, r, [errc, cd == 0, a_ >= l_], td == 1, 'with non-negative health the only rejection is the risk-tier rule (never "insufficient health")')
+    ob.need_witness()
+    return [ob]
+
+
+def mk_components(K):
+    def t(world):
+        E.LIST_K = K
+        def sum_cwv(eng, st, callee, args):
+            nm = eng.ex.fresh_name('cwv')
+            av, lv, pr = [z3.Int(f'{nm}.{x}') for x in ('a', 'l', 'p')]; ec = z3.Int(nm + '.e'); d = z3.Int(nm + '.d')
+            eng.ex.assumptions.append(z3.And(d >= 0, d <= 1, ec >= 0, ec < 2**32, av >= I128_MIN, av <= I128_MAX, lv >= I128_MIN, lv <= I128_MAX))
+            st.events.append(('cwv', args[1], av, lv, ec, d, eng.deref_val(args[0]).name))
+            tup = StructV('tuple', 't', {0: IntV(av, I80), 1: IntV(lv, I80), 2: IntV(pr, I80), 3: IntV(ec, 'u32')}, lazy=False)
+            return EnumV('Result', d, {0: {0: tup}, 1: {0: Opaque('E', 'err')}})
+        eng = world.engine(opaque=[r'to_le_bytes', r'to_num'], max_paths=100000)
+        eng.summaries = [(re.compile(r'calc_weighted_value$'), sum_cwv)]
+        f = world.fn(r'::get_account_health_components$')
+        args = [eng.ex.fresh(f.params[0][1], 'eng'), eng.ex.fresh(f.params[1][1], 'req'), eng.ex.fresh(f.params[2][1], 'hc')]
+        res = eng.run_fn(f, args)
+        ob = Ob('C04.d', f'get_account_health_components: totals are the checked sums of the per-position values for the mapped weight type, over every position (lists up to {K}); any per-position error propagates',
+                [f.name], f'position list length <= {K} (enumerate/next unrolled), per-position valuation opaque (C04.a/b)'); ob.paths = len(res)
+        n = z3.Int('eng*.1.slice.len')
+        for r, okc in ok_paths(res):
+            if ob.witness(eng, r, [okc]) is False: continue
+            cw = [e for e in flat_events(r['events']) if e[0] == 'cwv']
+            out = r['ret'].payload[0][0]
+            ta = ev(eng.get_path(out, (('f', 0, I80),))); tl = ev(eng.get_path(out, (('f', 1, I80),)))
+            ob.prove(eng, r, [okc], z3.And(ta == z3.Sum([e[2] for e in cw] + [z3.IntVal(0)]), tl == z3.Sum([e[3] for e in cw] + [z3.IntVal(0)])), 'totals == sum of per-position asset / liability values')
+            ob.prove(eng, r, [okc], z3.And([e[5] == 0 for e in cw] + [n == len(cw)]), 'every position was valued (none skipped), every valuation succeeded')
+            want = z3.If(zint(args[1].disc) == RT['Initial'], WT['Initial'], z3.If(zint(args[1].disc) == RT['Maintenance'], WT['Maintenance'], WT['Equity']))
+            ob.prove(eng, r, [okc], z3.And([zint(e[1].disc) == want for e in cw] or [z3.BoolVal(True)]), 'each position valued with the weight type matching the requirement')
+            names = [e[6] for e in cw]
+            if len(set(names)) != len(names): ob.fail('a position was valued twice')
+        ob.need_witness()
+        return [ob]
+    return t
+
+
+def mk_tiers(K):
+    def t(world):
+        E.LIST_K = K
+        eng = world.engine(max_paths=200000)
+        f = world.fn(r'::check_account_risk_tiers$')
+        a = [eng.ex.fresh(f.params[0][1], 'eng')]
+        res = eng.run_fn(f, a)
+        ob = Ob('C04.e', f'check_account_risk_tiers: Ok <=> no isolated-tier debt, or exactly one debt in total ("debt" = >= 1 liability share), for every list of up to {K} positions',
+                [f.name], f'position list length <= {K}; each position\'s bank loaded symbolically'); ob.paths = len(res)
+        n = z3.Int('eng*.1.slice.len')
+        bi = STRUCTS['Balance'].index('liability_shares')
+        ri = f"{STRUCTS['Bank'].index('config')}.{STRUCTS['BankConfig'].index('risk_tier')}.tag"
+        def liab(k): return z3.And(k < n, z3.Int(f'eng*.1.slice[{k}].2*.{bi}') >= W)
+        def iso(k): return z3.Int(f'eng*.1.slice[{k}].0.acct.{ri}') == ENUMS['RiskTier']['Isolated']
+        for r in returned(res):
+            okc = z3.simplify(disc_is(r['ret'], 0))
+            loads = [z3.Int(x) == 0 for x in free_consts(z3.And(r['pc'])) if x.startswith('load_ok')]
+            if ob.witness(eng, r, []) is False: continue
+            tot = z3.Sum([z3.If(liab(k), 1, 0) for k in range(K)]); isoc = z3.Sum([z3.If(z3.And(liab(k), iso(k)), 1, 0) for k in range(K)])
+            ob.prove(eng, r, [okc], z3.Or(isoc == 0, tot == 1), 'Ok => no isolated debt or a single debt')
+            ob.prove(eng, r, loads + [z3.Or(isoc == 0, tot == 1)], okc, 'no isolated debt or a single debt (and banks load) => Ok')
+        ob.need_witness()
+        return [ob]
+    return t
+
+
+def t_is_empty(world):
+    eng = world.engine(primary='typecrate', extra=())
+    cands = [x for x in world.fns(r'user_account\.rs[^>]*>::is_empty$', 'typecrate')]
+    ob = Ob('C04.h', 'Balance::is_empty(side): a side with less than one share counts as empty', [c.name for c in cands], 'loop-free')
+    for f in cands:
+        a = [eng.ex.fresh(f.params[0][1], 'b'), eng.ex.fresh(f.params[1][1], 'side')]
+        res = eng.run_fn(f, a); ob.paths += len(res)
+        ash = fsym('b*', 'Balance', 'asset_shares'); lsh = fsym('b*', 'Balance', 'liability_shares')
+        for r in returned(res):
+            if ob.witness(eng, r, []) is False: continue
+            ob.prove(eng, r, [], r['ret'].e == z3.If(zint(a[1].disc) == ENUMS['BalanceSide']['Assets'], ash < W, lsh < W), 'is_empty(side) <=> shares(side) < 1')
+    ob.need_witness()
+    return [ob]
+
+
+_t04 = tasks
+def tasks(tier):
+    K = 4 if tier == 'quick' else 8
+    return _t04(tier) + [('health_decision', t_health_decision), ('components', mk_components(K)), ('tiers', mk_tiers(3 if tier == 'quick' else 5)), ('is_empty', t_is_empty)]
+
+
+# ---------------------------------------------------------------- C04.a/b: per-position weighted values against an independent reference
+def exp10_ite(dec):
+    e = z3.IntVal(10 ** 23)
+    for k in range(22, -1, -1):
+        e = z3.If(dec == k, z3.IntVal(10 ** k), e)
+    return e
+
+
+def ref_calc_value(amount, price, dec, weight):
+    """calc_value reference: 0 if amount == 0 else trunc(floor(floor(amount*weight)*price) / 10^dec) in I80F48 bits"""
+    wa = (amount * weight) / W if weight is not None else amount
+    v = tdiv((((wa * price) / W)) * W, exp10_ite(dec) * W)
+    return z3.If(amount == 0, 0, v)
+
+
+def t_asset_value(world):
+    eng = world.engine(opaque=[r'try_get_price_feed$', r'find_with_tag$', r'get_price_of_type$'], max_paths=20000)
+    f = world.fn(r'::calc_weighted_asset_value$')
+    args = [eng.ex.fresh(ty, n) for n, (_, ty) in zip(['pos', 'req', 'bank', 'emode'], f.params)]
+    res = eng.run_fn(f, args)
+    ob = Ob('C04.a', 'calc_weighted_asset_value == reference: low-biased price (time-weighted for Initial/Equity, spot for Maintenance), weight = max(bank, e-mode entry) of the requirement, USD-cap discount for Initial, zero for isolated / reduce-only(Initial) / oracle error(Initial); oracle errors propagate otherwise',
+            [f.name], 'loop-free; every path; decimals 0..=23 via the constant table; all i128 values (overflow paths are Err/panic)'); ob.paths = len(res)
+    req = zint(args[1].disc)
+    g = lambda n: fsym('bank*', 'Bank', n)
+    tier = g('config.risk_tier'); ops = g('config.operational_state')
+    OPS = ENUMS['BankOperationalState']; TIER = ENUMS['RiskTier']; PT = ENUMS['OraclePriceType']; PB = ENUMS['PriceBias']
+    shares = z3.Int('pos*.2*.%d' % STRUCTS['Balance'].index('asset_shares'))
+    nok = 0
+    for r in returned(res):
+        okc = z3.simplify(disc_is(r['ret'], 0)); errc = z3.simplify(disc_is(r['ret'], 1))
+        Ev = [e for e in flat_events(r['events']) if e[0] == 'call']
+        pf = [e for e in Ev if re.search(r'try_get_price_feed$', e[1])]; fw = [e for e in Ev if re.search(r'find_with_tag$', e[1])]; gp = [e for e in Ev if re.search(r'get_price_of_type$', e[1])]
+        if not z3.is_false(okc) and ob.witness(eng, r, [okc]) is not False:
+            nok += 1
+            out = r['ret'].payload[0][0]
+            val = ev(eng.get_path(out, (('f', 0, I80),))); prc = ev(eng.get_path(out, (('f', 1, I80),))); code = ev(eng.get_path(out, (('f', 2, 'u32'),)))
+            ob.prove(eng, r, [okc, tier == TIER['Isolated']], z3.And(val == 0, prc == 0, code == 0), 'isolated-tier deposits are worth nothing')
+            ob.prove(eng, r, [okc, tier == TIER['Collateral'], ops == OPS['ReduceOnly'], req == WT['Initial']], z3.And(val == 0, code == 0), 'reduce-only deposits count for nothing toward new borrowing')
+            if pf:
+                tup = pf[0][3]
+                feed = eng.get_path(tup, (('f', 0, 'Result'),)) if isinstance(tup, StructV) else None
+                fdisc = zint(feed.disc) if feed is not None else None
+                ecode = ev(eng.get_path(tup, (('f', 1, 'u32'),)))
+                if fdisc is not None:
+                    ob.prove(eng, r, [okc, fdisc == 1], z3.And(req == WT['Initial'], val == 0, prc == 0, code == ecode), 'oracle error: only for the Initial requirement is the deposit valued at zero (error code reported)')
+            if gp:
+                e = gp[0]
+                ob.prove(eng, r, [okc], z3.And(zint(e[2][1].disc) == z3.If(req == WT['Maintenance'], PT['RealTime'], PT['TimeWeighted']),
+                                                zint(e[2][2].disc) == 1, zint(e[2][2].payload[1][0].disc) == PB['Low'], e[2][3].e == g('config.oracle_max_confidence'),
+                                                zint(e[3].disc) == 0), 'price: time-weighted for Initial/Equity, spot for Maintenance; LOW bias; the bank\'s max confidence; errors propagated')
+                P = e[3].payload[0][0].e
+                bank_w = z3.If(req == WT['Initial'], g('config.asset_weight_init'), z3.If(req == WT['Maintenance'], g('config.asset_weight_maint'), W))
+                if fw:
+                    ent = fw[0][3]
+                    has = zint(ent.disc) == 1
+                    en = eng.deref_val(ent.payload[1][0]) if 1 in ent.payload else None
+                    if en is not None:
+                        ei = ev(eng.get_path(en, (('f', STRUCTS['EmodeEntry'].index('asset_weight_init'), 'WrappedI80F48'),)))
+                        em = ev(eng.get_path(en, (('f', STRUCTS['EmodeEntry'].index('asset_weight_maint'), 'WrappedI80F48'),)))
+                        em_w = z3.If(req == WT['Initial'], ei, z3.If(req == WT['Maintenance'], em, W))
+                        w0 = z3.If(has, z3.If(bank_w >= em_w, bank_w, em_w), bank_w)
+                    else: w0 = bank_w
+                    ob.prove(eng, r, [okc], fw[0][2][1].e == g('emode.emode_tag'), 'e-mode entry looked up by this bank\'s e-mode tag')
+                else: w0 = bank_w
+                amount = (shares * g('asset_share_value')) / W
+                dec = z3.If(g('config.asset_tag') == 4, 9, g('mint_decimals'))
+                limit = g('config.total_asset_value_init_limit')
+                tot_amt = (g('total_asset_shares') * g('asset_share_value')) / W
+                tot_val = ref_calc_value(tot_amt, P, dec, None)
+                disc_on = z3.And(req == WT['Initial'], limit != 0, tot_val > limit * W)
+                w1 = z3.If(disc_on, (w0 * tdiv(limit * W * W, tot_val)) / W, w0)
+                ob.prove(eng, r, [okc, tier == TIER['Collateral'], z3.Not(z3.And(ops == OPS['ReduceOnly'], req == WT['Initial'])), g('mint_decimals') <= 23],
+                         z3.And(val == ref_calc_value(amount, P, dec, w1), prc == P, code == 0), 'value == calc_value(shares*asv, low price, decimals, weight incl. e-mode max and USD-cap discount)', timeout=120000)
+        if not z3.is_false(errc) and pf:
+            pass
+    ob.notes.append(f'{nok} accepting paths')
+    ob.need_witness()
+    return [ob]
+
+
+def t_liab_value(world):
+    eng = world.engine(opaque=[r'try_get_price_feed$', r'get_price_of_type$'], max_paths=20000)
+    f = world.fn(r'::calc_weighted_liab_value$')
+    args = [eng.ex.fresh(ty, n) for n, (_, ty) in zip(['pos', 'req', 'bank'], f.params)]
+    res = eng.run_fn(f, args)
+    ob = Ob('C04.b', 'calc_weighted_liab_value == reference: HIGH-biased price of the requirement\'s type, liability weight of the requirement, oracle errors always propagate',
+            [f.name], 'loop-free; every path'); ob.paths = len(res)
+    req = zint(args[1].disc); g = lambda n: fsym('bank*', 'Bank', n)
+    PT = ENUMS['OraclePriceType']; PB = ENUMS['PriceBias']
+    shares = z3.Int('pos*.2*.%d' % STRUCTS['Balance'].index('liability_shares'))
+    for r, okc in ok_paths(res):
+        if ob.witness(eng, r, [okc]) is False: continue
+        Ev = [e for e in flat_events(r['events']) if e[0] == 'call']
+        pf = [e for e in Ev if re.search(r'try_get_price_feed$', e[1])]; gp = [e for e in Ev if re.search(r'get_price_of_type$', e[1])]
+        if len(pf) != 1 or len(gp) != 1: ob.fail('price feed / price not consulted exactly once'); continue
+        feed = eng.get_path(pf[0][3], (('f', 0, 'Result'),))
+        ob.prove(eng, r, [okc], zint(feed.disc) == 0, 'an oracle error never yields a debt value (it propagates)')
+        e = gp[0]
+        ob.prove(eng, r, [okc], z3.And(zint(e[2][1].disc) == z3.If(req == WT['Maintenance'], PT['RealTime'], PT['TimeWeighted']), zint(e[2][2].disc) == 1,
+                                        zint(e[2][2].payload[1][0].disc) == PB['High'], e[2][3].e == g('config.oracle_max_confidence'), zint(e[3].disc) == 0), 'HIGH bias, matching price type, bank max confidence')
+        P = e[3].payload[0][0].e
+        lw = z3.If(req == WT['Initial'], g('config.liability_weight_init'), z3.If(req == WT['Maintenance'], g('config.liability_weight_maint'), W))
+        amount = (shares * g('liability_share_value')) / W
+        dec = z3.If(g('config.asset_tag') == 4, 9, g('mint_decimals'))
+        out = r['ret'].payload[0][0]
+        ob.prove(eng, r, [okc, g('mint_decimals') <= 23], z3.And(ev(eng.get_path(out, (('f', 0, I80),))) == ref_calc_value(amount, P, dec, lw), ev(eng.get_path(out, (('f', 1, I80),))) == P),
+                 'value == calc_value(shares*lsv, high price, decimals, liability weight)', timeout=120000)
+    ob.need_witness()
+    return [ob]
+
+
+_t04b = tasks
+def tasks(tier):
+    return _t04b(tier) + [('asset_value', t_asset_value), ('liab_value', t_liab_value)]
